@@ -74,6 +74,14 @@ def ensure_gomod():
 _built = {}
 
 
+def COVER_FLAGS():
+    """Development aid (VERIF_COVER=1 + GOCOVERDIR=<dir>): the drivers are built with coverage
+    instrumentation of heimdall's packages, to see which code of the anchored files a check executes."""
+    if os.environ.get("VERIF_COVER"):
+        return ["-cover", "-coverpkg=github.com/dadrus/heimdall/internal/...,github.com/dadrus/heimdall/verifharness/..."]
+    return []
+
+
 def build_driver(race=False, tags="verif", cmd="verifdrv"):
     """Builds harness/cmd/<cmd> against the current /repo working tree. Returns the binary path."""
     key = (race, tags, cmd)
@@ -84,7 +92,7 @@ def build_driver(race=False, tags="verif", cmd="verifdrv"):
     out = os.path.join(WORKROOT, "bin", cmd + ("-race" if race else "") + "-%d" % os.getpid())
     gocmd = cmd
     cmd = (["go", "build", "-modfile", modfile, "-tags", tags, "-o", out] + (["-race"] if race else [])
-           + ["./cmd/" + gocmd])
+           + COVER_FLAGS() + ["./cmd/" + gocmd])
     t0 = time.time()
     p = subprocess.run(cmd, cwd=HARNESS, env=goenv(), capture_output=True, text=True)
     if p.returncode != 0:
@@ -154,6 +162,8 @@ class Work:
         return os.path.join(self.dir, name)
 
     def close(self):
+        if os.environ.get("VERIF_KEEP"):   # development aid: look at the scratch files afterwards
+            return
         shutil.rmtree(self.dir, ignore_errors=True)
 
 
